@@ -1,1 +1,8 @@
 """Deterministic simulator with fault injection for nessai (see /verif/DESIGN.md)."""
+import os as _os
+import sys as _sys
+
+# the repository under test must win over the editable install, whatever imports nessai first
+_repo = _os.environ.get("VERIF_REPO", "/repo")
+if _repo not in _sys.path[:1]:
+    _sys.path.insert(0, _repo)
